@@ -60,9 +60,12 @@ def convert(
     skip_procedure_headers: bool = False,
 ) -> str:
     compiler_configs = compiler_configs or CompilerConfigs()
-    tree = grammar.parse(progin)
-    bv = BasicVisitor()
-    basic_prog: BasicProg = bv.visit(tree)
+    try:
+        tree = grammar.parse(progin)
+        bv = BasicVisitor()
+        basic_prog: BasicProg = bv.visit(tree)
+    except RecursionError:
+        raise ParseError("The program is nested too deeply to be parsed.") from None
 
     if add_standard_prefix:
         prefix_lines = [
